@@ -3,15 +3,61 @@
 package kernel
 
 import (
-	"math/rand/v2"
+	"math/bits"
 )
+
+// pcg is math/rand/v2's PCG-DXSM and its bounded-integer reduction, copied so that
+// no instrumented library code touches tape state: under the race detector (C17)
+// the tape is used by every task in turn with no synchronisation the detector can
+// see, and must stay invisible to it like the rest of the simulator.
+type pcg struct{ hi, lo uint64 }
+
+func (p *pcg) uint64() uint64 {
+	const (
+		mulHi = 2549297995355413924
+		mulLo = 4865540595714422341
+		incHi = 6364136223846793005
+		incLo = 1442695040888963407
+	)
+	hi, lo := bits.Mul64(p.lo, mulLo)
+	hi += p.hi*mulLo + p.lo*mulHi
+	lo, c := bits.Add64(lo, incLo, 0)
+	hi, _ = bits.Add64(hi, incHi, c)
+	p.lo, p.hi = lo, hi
+	const cheapMul = 0xda942042e4dd58b5
+	hi ^= hi >> 32
+	hi *= cheapMul
+	hi ^= hi >> 48
+	hi *= (lo | 1)
+	return hi
+}
+
+func (p *pcg) uint32() uint32 { return uint32(p.uint64() >> 32) }
+
+// intN is rand.Rand.IntN for 0 < n < 2^32.
+func (p *pcg) intN(n int) int {
+	un := uint32(n)
+	if un&(un-1) == 0 {
+		return int(uint32(p.uint64()) & (un - 1))
+	}
+	prod := uint64(p.uint32()) * uint64(un)
+	low := uint32(prod)
+	if low < un {
+		thresh := -un % un
+		for low < thresh {
+			prod = uint64(p.uint32()) * uint64(un)
+			low = uint32(prod)
+		}
+	}
+	return int(prod >> 32)
+}
 
 // Tape is the single source of every nondeterministic decision of a run.
 // In generate mode values come from a PCG seeded with the run's seed and are
 // recorded; in replay mode they are read back (exhausted tape yields 0).
 // Encoding convention: 0 is always the benign choice.
 type Tape struct {
-	rng     *rand.Rand
+	rng     *pcg
 	replay  []uint32
 	pos     int
 	Replay  bool
@@ -22,7 +68,7 @@ type Tape struct {
 
 // NewTape returns a generating tape for seed.
 func NewTape(seed uint64) *Tape {
-	return &Tape{rng: rand.New(rand.NewPCG(seed, 0x9e3779b97f4a7c15^seed))}
+	return &Tape{rng: &pcg{hi: seed, lo: 0x9e3779b97f4a7c15 ^ seed}}
 }
 
 // NewReplayTape returns a tape replaying vals.
@@ -41,7 +87,7 @@ func (t *Tape) draw(label string, n int) int {
 			v %= uint32(n)
 		}
 	} else {
-		v = uint32(t.rng.IntN(n))
+		v = uint32(t.rng.intN(n))
 	}
 	t.Rec = append(t.Rec, v)
 	if t.KeepLbl {
